@@ -175,4 +175,21 @@ def World.isLastArena (w : World) (j : Nat) (s : Slice) : Option Bool :=
   | some a => some (arenaIsLast a s)
   | none => none
 
+/-! ### Which op lines name live objects
+
+`World.step w op = none` means "the Rust code panics, or a handle of `op` does not name a live object".
+`handlesOk` separates the two: the harness answers an op line whose handles are not live with `bad-op`
+and leaves its state alone (it never generates one; replays and shrunk cases can contain them). -/
+
+def WOp.handlesOk (w : World) : WOp → Bool
+  | .new | .newArena | .newFromSlices _ | .lend _ => true
+  | .newFromArena a | .aReserve a _ | .aFlush a | .dropArena a | .readNArena a _ _ _ _ => (w.arena a).isSome
+  | .push v _ | .pushBorrowed v _ | .pushCopy v _ | .register v _ | .extend v _ | .consume v _ | .advance v _
+  | .read v _ | .reserve v _ | .pop v | .clear v | .take v | .clone v | .drop v | .flush v | .takeArena v
+  | .readNIov v _ _ _ _ | .pushAt v _ _ _ | .pushBorrowedAt v _ _ _ => (w.iov v).isSome
+  | .pushASlice v s => (w.iov v).isSome && (w.aslice s).isSome
+  | .swapArena v a => (w.iov v).isSome && (w.arena a).isSome
+  | .sSkip s _ | .sDropSuf s _ | .sSplit s _ | .sTake s | .sClone s | .sDrop s => (w.aslice s).isSome
+  | .backfill v b _ => (w.iov v).isSome && b < w.brefs.length
+
 end Woodpile.Iovec
